@@ -613,6 +613,7 @@ func runHarness(ld *Loaded, hs *HarnessSpec, tier string, known map[string]bool,
 			}()
 			in.ensureInit(hs.Fn.Pkg)
 			in.deferredFacts = nil
+			in.pools = nil
 			in.callFunction(hs.Fn, nil, nil)
 			for _, l := range in.deferredFacts {
 				in.obligation(l, "cwidth", in.ts.False())
